@@ -172,7 +172,7 @@ def gen_program(rng, bias, size=1):
 
 
 # ------------------------------------------------------------------------------------------- log parsing
-OBS_RE = re.compile(r"obs alive=(\d) ah=(-?\d+) ar=(-?\d+) stop=(\d) nh=(\d+) now=(\d+)(.*)")
+OBS_RE = re.compile(r"obs alive=(\d) ah=(-?\d+) ar=(-?\d+) stop=(\d) nh=(\d+) now=(\d+) pq=(\S+)(.*)")
 POLL_RE = re.compile(r"env poll iter=(\d+) timeout=(-?\d+) clock=(\d+) done=(\d+) ->(.*)")
 
 def parse_obs(l):
@@ -180,11 +180,11 @@ def parse_obs(l):
     if not m:
         return None
     hs = {}
-    for w in m.group(7).split():
+    for w in m.group(8).split():
         n, f = w.split("=")
         hs[int(n[1:])] = f
     return dict(alive=int(m.group(1)), ah=int(m.group(2)), ar=int(m.group(3)), stop=int(m.group(4)),
-                nh=int(m.group(5)), now=int(m.group(6)), hs=hs)
+                nh=int(m.group(5)), now=int(m.group(6)), pq=[] if m.group(7) == "-" else m.group(7).split(","), hs=hs)
 
 
 class Mon:
@@ -448,8 +448,17 @@ class Mon:
         lo = cnt > 0 or owed > 0 or bool(strict)
         hi = cnt > 0 or owed > 0 or bool(pending_close)
         if close_phase and pending_close & close_phase and not lo and not o["alive"]:
+            # known deviation: uv__run_closing_handles has detached the batch, uv_loop_alive() ignores it
             self.stats["alive_in_close_phase"] += 1
-        if o["alive"] != int(lo) and o["alive"] != int(hi):
+            self.bad("C01", "alive-zero-inside-closing-batch", f"uv_loop_alive()=0 inside the closing phase while handles "
+                     f"{sorted(pending_close & close_phase)} of the batch being delivered still await their close_cb", i)
+        elif (o["alive"] == 1 and not hi and o["ah"] == 0 and o["ar"] == 0 and o["pq"]
+              and all(p != "?" and H.get(int(p[1:]), {}).get("kind") == "udp" for p in o["pq"])):
+            # known deviation: a udp watcher re-fed into the pending queue by uv__udp_sendmsg called from uv__udp_io
+            self.stats["alive_spurious_udp_feed"] = self.stats.get("alive_spurious_udp_feed", 0) + 1
+            self.bad("C01", "alive-only-spurious-udp-pending-feed", f"uv_loop_alive()=1 with nothing owed; pending_queue holds only "
+                     f"the io watcher of udp handle(s) {o['pq']}", i)
+        elif o["alive"] != int(lo) and o["alive"] != int(hi):
             self.bad("C01", "alive-but-nothing-owed" if o["alive"] else "dead-but-work-owed", f"uv_loop_alive()={o['alive']} but active&ref&!closing handles={cnt}, requests owed={owed}, "
                      f"close callbacks owed={sorted(pending_close)}", i)
 
@@ -776,7 +785,7 @@ def drive(ctx, pid, modules, bias_mix, quick_n, thorough_n):
         ctx.count()
         for s, msg in e["mon"].v[pid]:
             ctx.violation(s, f"{pid}: {msg}", rp)
-        if e["diff"] and not e["mon"].v[pid]:
+        if e["diff"] and not [1 for s, _ in e["mon"].v[pid] if s not in ctx.known]:
             ctx.broken_correspondence("loop model vs implementation", f"line {e['diff'][0] + 1}: impl `{e['diff'][1]}` model `{e['diff'][2]}`")
         return
     n = ctx.scale(quick_n, thorough_n)
@@ -809,12 +818,13 @@ def drive(ctx, pid, modules, bias_mix, quick_n, thorough_n):
             if w[0] == "on":
                 for seg in " ".join(w[3:]).split(" ; "):
                     hist["cb:" + seg.split()[0]] = hist.get("cb:" + seg.split()[0], 0) + 1
+        fresh = [(s, msg) for s, msg in mon.v[pid] if s not in ctx.known]
         for s, msg in mon.v[pid]:
             small = prog
             if not any(v["sig"] == s for v in ctx.violations) and s not in ctx.known:
                 small = shrink(ctx, exe, prog, pid, s)
             ctx.violation(s, f"{pid}: {msg}", {"program": small, "case": name})
-        if e["diff"] and not mon.v[pid]:
+        if e["diff"] and not fresh:
             ndiff += 1
             if ndiff == 1:
                 ctx.broken_correspondence("loop model vs implementation (sim_loop.c / uvdriver loop)",
@@ -841,6 +851,8 @@ def drive(ctx, pid, modules, bias_mix, quick_n, thorough_n):
                 for prog, e in ex.map(swork, range(chunk, min(budget, chunk + 64))):
                     done += 1
                     for s, msg in e["mon"].v[pid]:
+                        if s in ctx.known:
+                            ctx.violation(s, f"{pid} (search): {msg}", {"program": prog}); continue
                         small = shrink(ctx, exe, prog, pid, s) if not found else prog
                         found = True
                         ctx.violation(s, f"{pid} (search): {msg}", {"program": small})
